@@ -15,6 +15,7 @@ class Gen:
         self.fn_depth = 0; self.loop_depth = 0; self.in_try = 0
         self.classes = []       # (name, ctor_arity, methods [(name, arity)], has_static)
         self.caught_throw = False
+        self.counters = set()   # loop counters: readable, never assigned by generated statements
 
     def fresh(self, p="v"):
         self.counter += 1
@@ -135,8 +136,9 @@ class Gen:
             self.emit(f"var {n} = {e};"); self.declare(n, t)
         elif r < 0.3:
             self.emit(f"print({self.any()});")
-        elif r < 0.38 and self.vars_of("num"):
-            v = self.pick(self.vars_of("num"))
+        elif r < 0.38 and [x for x in self.vars_of("num") if x not in self.counters]:
+            # (never a loop counter: a body that resets its counter does not terminate, and such a run is inconclusive)
+            v = self.pick([x for x in self.vars_of("num") if x not in self.counters])
             if self.chance(0.5): self.emit(f"{v} = {self.num()};")
             else: self.emit(f"{v} {self.pick(['+=', '-=', '*=', '/=', '%=', '&=', '|=', '^=', '<<=', '>>='])} {self.simple_num()};")
         elif r < 0.42 and self.vars_of("str"):
@@ -157,7 +159,7 @@ class Gen:
             self.emit("}")
         elif r < 0.6 and depth < 3:
             c = self.fresh("i")
-            self.emit(f"var {c} = 0;"); self.declare(c, "num")
+            self.emit(f"var {c} = 0;"); self.declare(c, "num"); self.counters.add(c)
             self.emit(f"while {c} < {self.rng.randint(1, 4)} {{")
             self.indent += 1; self.emit(f"{c} += 1;"); self.indent -= 1
             self.loop_depth += 1; self.block(self.rng.randint(1, 3)); self.loop_depth -= 1
